@@ -256,7 +256,7 @@ def run(ctx):
         vfiles.append(p)
         vindex.append(idx)
     t2 = time.time()
-    res = ctx.coqc_many(vfiles, jobs=16, timeout=2400)
+    res = B.coqc_many_retry(ctx, vfiles, jobs=16, timeout=2400)
     ctx.log(f"coqc on {len(vfiles)} cut-point files: {time.time()-t2:.1f}s")
     from harness.c05 import B_parse
 
